@@ -6,13 +6,15 @@
    samples handed to the application in order (writer, sequence number, source timestamp, payload),
    [sns_of w l] the sequence numbers of writer w in such a list, [sub_ops] the submessages of a case. *)
 From Coq Require Import List ZArith Bool.
-From RD Require Import C03.Model C03.Theorems C01.Model C01.Core C01.Theorems.
+From RD Require Import C03.Model C03.Theorems C01.Model C01.Core C01.Theorems C01.Holes.
 Import ListNotations.
 Open Scope Z_scope.
 
 (* the model satisfies the order / once / fidelity part of the oracle on every case.  The oracle
-   used on the implementation's observations ([ok]) additionally has the no-holes clause; for that
-   clause the model is only shown to agree on the cases of every run (correspondence), not proved. *)
+   used on the implementation's observations ([ok]) additionally has a no-holes clause computed from
+   observables; no-holes is proved for the model below (C01_no_holes) in terms of the model state,
+   the step from that theorem to "the model passes the oracle's no-holes clause" is not proved (the
+   model agrees with the implementation on every case of every run). *)
 Theorem C01_model_ok_partial : forall c, ok_core c (run c) = true.
 Proof. exact run_ok_core. Qed.
 Print Assumptions C01_model_ok_partial.
@@ -45,6 +47,35 @@ Theorem C01_fidelity : forall c x, wf_case c = true -> In x (handed_seq (R c)) -
   exists o, In o (sub_ops (c_ops c)) /\ delivered_by x o = true.
 Proof. exact fidelity. Qed.
 Print Assumptions C01_fidelity.
+
+(* no holes.  [cs] is the state of the composed model after any prefix of the operations; its
+   entries are all cache changes the Reader ever added, with their status ([Taken] = handed to the
+   application) and whether the topic cache still holds them ([e_in]).  When x has been handed
+   over, every lower sequence number m of its writer either was received (has an entry) and then has
+   been handed over too — earlier, by C01_order — unless the topic cache evicted it first (the
+   property's own premise), or was never received and is known to the C03 history summary of the
+   submessages handled so far, i.e. was declared unavailable: below an effective HEARTBEAT's
+   first_sn, in a valid GAP's range, or in a GAP bitmap (the summary's point set holds GAP bitmap
+   entries and received numbers only). *)
+Theorem C01_no_holes : forall c k x m, wf_case c = true ->
+  let ops := firstn k (c_ops c) in
+  let cs := cfinal (c_max_keep c) (cinit (c_matched c)) ops in
+  In x (cs_es cs) -> e_st x = Taken -> m < e_sn x ->
+  (exists e, In e (cs_es cs) /\ e_w e = e_w x /\ e_sn e = m /\ (e_in e = true -> e_st e = Taken))
+  \/ ((forall e, In e (cs_es cs) -> ~ (e_w e = e_w x /\ e_sn e = m))
+      /\ exists s, sfinal (sinit (c_matched c)) (init (c_matched c)) (sub_ops ops) (e_w x) = Some s
+                   /\ known s m = true).
+Proof. exact no_holes. Qed.
+Print Assumptions C01_no_holes.
+
+(* a sample leaves the topic cache towards the application only when it lies below the ack_base of
+   its writer's proxy (the frontier C03's theorems are about) *)
+Theorem C01_handed_below_base : forall c k e,
+  In e (cs_es (cfinal (c_max_keep c) (cinit (c_matched c)) (firstn k (c_ops c)))) -> e_st e <> Cached ->
+  exists p, r_prox (cs_r (cfinal (c_max_keep c) (cinit (c_matched c)) (firstn k (c_ops c)))) (e_w e) = Some p
+            /\ e_sn e < p_base p.
+Proof. exact handed_below_base. Qed.
+Print Assumptions C01_handed_below_base.
 
 (* non-vacuity: out-of-order arrival, held back, then handed over in order *)
 Example C01_example :
